@@ -6,6 +6,6 @@ CONSTANTS
   MaxNodes = 4
   FixArchiveAncestors = TRUE
   DirLists = {{"x"}, {"x", "y"}, {""}}
-INVARIANTS ArchiveAgrees ListedIsReachable DirAssetsAgree
+INVARIANTS ArchiveAgrees ListedIsReachable ParentIdAgrees DirAssetsAgree
 VIEW View
 CHECK_DEADLOCK FALSE
